@@ -11,7 +11,7 @@ import time
 
 VERIF = os.path.dirname(os.path.dirname(os.path.abspath(__file__)))
 SIM = os.path.join(VERIF, "sim")
-REPO = "/repo"
+REPO = os.environ.get("CFFSIM_REPO", "/repo")  # the tree under test (checks always use /repo; background experiments may point elsewhere)
 GO126 = "go1.26.8"
 NPROC = 16
 
@@ -92,10 +92,22 @@ class Infra(Exception):
 SPECIAL_FAIL = {}
 
 
+def copy_module(tmp, name):
+    """Scratch copy of the harness module whose go.mod points at the tree under test."""
+    mod = os.path.join(tmp, "mod_" + name)
+    if not os.path.exists(mod):
+        shutil.copytree(SIM, mod, ignore=shutil.ignore_patterns("*.test"))
+        gm = os.path.join(mod, "go.mod")
+        txt = open(gm).read().replace("go.uber.org/cff => /repo", "go.uber.org/cff => " + REPO)
+        open(gm, "w").write(txt)
+        shutil.copy(os.path.join(REPO, "go.sum"), os.path.join(mod, "go.sum"))
+    return mod
+
+
 def build_l1(tmp, race):
     out = os.path.join(tmp, "l1_race.test" if race else "l1.test")
     cmd = [GO126, "test", "-c", "-tags", "verif", "-o", out] + (["-race"] if race else []) + ["./l1"]
-    r = sh(cmd, cwd=SIM)
+    r = sh(cmd, cwd=copy_module(tmp, "l1"))
     if r.returncode != 0:
         raise Infra("BUILD-FAILED (L1 harness against /repo working tree):\n" + r.stdout[-4000:])
     return out
@@ -114,8 +126,7 @@ def build_cff(tmp):
 def build_l2(tmp, race, tier, seed, name="l2", genmode="base", kind="mixed", corpus=None):
     """Generate a corpus, run the cff tool built from /repo on it, compile the harness."""
     cff = build_cff(tmp)
-    mod = os.path.join(tmp, "mod_" + name)
-    shutil.copytree(SIM, mod, ignore=shutil.ignore_patterns("*.test"))
+    mod = copy_module(tmp, name)
     npk, per, maxt = corpus or CORPUS[tier]
     r = sh(["go", "run", "./cmd/progen", "-out", mod, "-seed", str(seed), "-pkgs", str(npk), "-per", str(per), "-maxtasks", str(maxt), "-kind", kind], cwd=mod)
     if r.returncode != 0:
@@ -158,7 +169,7 @@ def build_l2(tmp, race, tier, seed, name="l2", genmode="base", kind="mixed", cor
     r = sh(cmd, cwd=mod)
     if r.returncode != 0:
         raise Infra("BUILD-FAILED (generated code or L2 harness does not compile, genmode=%s):\n%s" % (genmode, r.stdout[-6000:]))
-    nprogs = len(glob.glob(os.path.join(mod, "corpus", "*", "prog_*.go")))
+    nprogs = len(glob.glob(os.path.join(mod, "corpus", "*", "prog_*_x.go")))
     return out, mod, nprogs
 
 
